@@ -131,6 +131,12 @@ func followUp(v any) {
 		_ = x.IsEmpty()
 		_, _ = x.MarshalCBOR()
 		_, _ = x.MarshalJSON()
+	case *psatoken.SwComponents[*AltComp]:
+		_ = x.Validate()
+		_, _ = x.Values()
+		_ = x.IsEmpty()
+		_, _ = x.MarshalCBOR()
+		_, _ = x.MarshalJSON()
 	case *popFlat, *popEmb1, *popEmb2, *popIfaceEmb:
 		_, _ = encoding.SerializeStructToCBOR(extEM, x)
 		_, _ = encoding.SerializeStructToJSON(x)
@@ -169,6 +175,11 @@ func decodeEntries() []decodeEntry {
 		{"PopulateStructFromCBOR(iface-nil)", false, func(in []byte) (any, error) {
 			d := &popIfaceEmb{}
 			return d, encoding.PopulateStructFromCBOR(extDM, in, d)
+		}},
+		{"SwComponents[other-component-type].UnmarshalCBOR", false, func(in []byte) (any, error) {
+			c := &psatoken.SwComponents[*AltComp]{}
+			err := c.UnmarshalCBOR(in)
+			return c, err
 		}},
 		{"PopulateStructFromCBOR(field-populates-again)", false, func(in []byte) (any, error) {
 			d := &popNesting{}
@@ -212,6 +223,11 @@ func decodeEntries() []decodeEntry {
 		{"PopulateStructFromJSON(iface-embedded)", true, func(in []byte) (any, error) {
 			d := &popIfaceEmb{PopIface: &popFlat{}}
 			return d, encoding.PopulateStructFromJSON(in, d)
+		}},
+		{"SwComponents[other-component-type].UnmarshalJSON", true, func(in []byte) (any, error) {
+			c := &psatoken.SwComponents[*AltComp]{}
+			err := c.UnmarshalJSON(in)
+			return c, err
 		}},
 		{"PopulateStructFromJSON(field-populates-again)", true, func(in []byte) (any, error) {
 			d := &popNesting{}
